@@ -15,7 +15,8 @@ func init() {
 			"C17.guarded — every read, update and delete of the driver's connection-cache map holds the driver mutex (exclusively for update/delete); " +
 			"C17.atomic — in the function that opens a file connection, the cache lookup, the updog.OpenIndex call and the cache insert all execute with the mutex held exclusively and no path from the lookup to the insert passes an unlock (one critical section), and the reference count of a found connection is incremented inside it. This is a necessary condition here because bbolt takes an exclusive flock: two first users that both reach OpenIndex block forever; " +
 			"C17.evict — in the connection's Close, every path to (*updog.Index).Close first deletes the connection from the cache, the delete and the reference-count decrement hold the mutex exclusively and no unlock lies between them, so a closed connection can never be handed out again. " +
-			"NOT decided: correctness of rows on an open handle (C12); database/sql's pool behaviour (trusted); two DSNs that name the same file with different option strings still open the file twice (second open blocks on the flock) — recorded in DESIGN.md as outside the decided clauses.",
+			"C17.cacheowner — the query cache given to an index is created for that index in the opening function (a cache shared between files or surviving a reopen returns another file's bitmaps). " +
+			"NOT decided: correctness of rows on an open handle beyond that (C12); database/sql's pool behaviour (trusted); two DSNs that name the same file with different option strings still open the file twice (second open blocks on the flock) — recorded in DESIGN.md as outside the decided clauses.",
 		assumptions: []string{"sync.RWMutex semantics", "database/sql calls driver.Conn.Close once per handed-out connection", "bbolt holds an exclusive flock while a DB is open"},
 	})
 }
@@ -233,6 +234,7 @@ func runC17(c *Ctx) {
 			}
 		})
 	}
+	cacheOwnerRule(c, "C17.cacheowner")
 	if okAll {
 		c.r.ok(ev, safeFname(cl), "last Close evicts the connection before closing the index, in the critical section of the decrement", csite)
 	}
